@@ -27,7 +27,8 @@ def run(tier, seed):
         e = m["event"]
         first = e["panics"][0] if e["panics"] else {}
         loc = first.get("loc", "?")
-        chk.violation("panic:%s" % loc.split("/")[-1], "set %s: %s panicked on %s at %s: %s" % (m["set"], e["op"], e["class"], loc, first.get("msg", "")[:160]),
+        key = "panic:%s:%s:%s" % (e["op"], loc.split("/")[-1].split(":")[0], first.get("msg", "")[:40])
+        chk.violation(key, "set %s: %s panicked on %s at %s: %s" % (m["set"], e["op"], e["class"], loc, first.get("msg", "")[:160]),
                       dict(set=m["set"], op=e["op"], input_class=e["class"], panic=first))
     # 2. the arithmetic pipeline under tracing: panics (overflow checks) and magnitudes against the bounds model
     jobs = [(s, os.path.join(chk.workdir, "ring_%d.ndjson" % s)) for s in (44, 65, 87)]
